@@ -49,7 +49,8 @@ impl ConfigState for GenConfig {
             self.value.clone_from(&config.value);
             res.push("value");
         }
-        if ctx.as_ref().is_some_and(|c| !c.is_recursive) {
+        // no context: the initial config (top level, or the table of the method / argument in scope)
+        if ctx.as_ref().map_or(true, |c| !c.is_recursive) {
             if config.depth.is_some() {
                 self.depth = config.depth;
                 res.push("depth");
